@@ -62,7 +62,7 @@ const Tables &tables()
     static const O objs[] = {
         {"Variable.addEquivalence#2", mEntity, mEntity}, {"Variable.addEquivalence#4", mEntity, mEntity}, {"Variable.removeEquivalence", mEntity, mEntity},
         {"Variable.removeAllEquivalences", 0, 0}, {"Variable.equivalentVariable#index", mIndex, 0}, {"Variable.hasEquivalentVariable", mN | mP, 0},
-        {"Variable.equivalenceIds", mN, mN}, {"Entity.setId", 0, 0}, {"Entity.equals", mN | mP, 0}, {"NamedEntity.setName", 0, 0},
+        {"Variable.equivalenceIds", mN, mN}, {"Variable.editEquivalenceIds", 0, 0}, {"Entity.setId", 0, 0}, {"Entity.equals", mN | mP, 0}, {"NamedEntity.setName", 0, 0},
         {"ComponentEntity.setEncapsulationId", 0, 0}, {"Component.setMath", 0, 0}, {"Variable.setUnits#name", 0, 0}, {"Variable.setUnits#units", mEntity, 0},
         {"Variable.removeUnits", 0, 0}, {"Variable.setInitialValue#string", 0, 0}, {"Variable.setInitialValue#variable", mEntity, 0}, {"Variable.setInterfaceType", 0, 0},
         {"Units.addUnit", 0, 0}, {"Units.removeUnit#index", mIndex, 0}, {"Units.removeUnit#reference", mU, 0}, {"Units.removeAllUnits", 0, 0}, {"Units.setUnitId", mIndex, 0},
@@ -942,6 +942,54 @@ struct Exec
             };
             return p;
         }
+        if (op == "Variable.editEquivalenceIds") {
+            // identifiers of an existing equivalence are set or removed (mapping id of the pair, id of the whole connection)
+            int v1 = need(pick(1u << K_VAR, st.arg(0)));
+            if (p.skip) {
+                return p;
+            }
+            auto a = w.as<Variable>(v1);
+            if (a == nullptr || a->equivalentVariableCount() == 0) {
+                p.skip = true;
+                return p;
+            }
+            auto b = a->equivalentVariable(size_t(st.arg(1)) % a->equivalentVariableCount());
+            int v2 = w.idOf(b);
+            if (b == nullptr || v2 < 0) {
+                p.skip = true;
+                return p;
+            }
+            long mode = ((st.arg(2) % 4) + 4) % 4;
+            p.args = "v1=" + hid(v1) + " v2=" + hid(v2) + " mode=" + str(mode);
+            p.spec = [this](const Snap &before) {
+                Snap s2 = before;
+                for (size_t i = 0; i < s2.size() && i < w.h.size(); ++i) {
+                    if (s2[i].alive && w.h[i].kind == K_VAR) {
+                        s2[i].digest = "*"; // (the id of a connection is shared by all variable pairs of the two components)
+                    }
+                }
+                return std::vector<Outcome> {Outcome {s2, ""}};
+            };
+            std::string id = "eqid" + str(val % 5);
+            p.call = [=]() {
+                auto x = w.as<Variable>(v1), y = w.as<Variable>(v2);
+                switch (mode) {
+                case 0: Variable::removeEquivalenceMappingId(x, y); break;
+                case 1: Variable::removeEquivalenceConnectionId(x, y); break;
+                case 2: Variable::setEquivalenceMappingId(x, y, id); break;
+                default: Variable::setEquivalenceConnectionId(x, y, id);
+                }
+                // an equivalence is an unordered pair: what was set or removed reads back the same from either side
+                const std::string expected = mode >= 2 ? id : std::string();
+                const std::string xy = mode % 2 == 0 ? Variable::equivalenceMappingId(x, y) : Variable::equivalenceConnectionId(x, y);
+                const std::string yx = mode % 2 == 0 ? Variable::equivalenceMappingId(y, x) : Variable::equivalenceConnectionId(y, x);
+                if (xy != expected || yx != expected) {
+                    return "getter-disagrees: (v1,v2) reads '" + xy + "', (v2,v1) reads '" + yx + "', expected '" + expected + "'";
+                }
+                return std::string();
+            };
+            return p;
+        }
         if (op == "Entity.setId" || op == "Entity.equals") {
             int t = need(pick((1u << NKIND) - 1, st.arg(0)));
             if (p.skip) {
@@ -1654,6 +1702,50 @@ struct Exec
         if (cl == nullptr) {
             ctx.violate("C11", "clone-null", kind, op + " returned null");
             return false;
+        }
+        if (dOrig != dClone) {
+            // A connection (a pair of components) has one id in any document.  After a variable has been moved between
+            // components, the pairs of one connection may carry different ids: no serialisation can say that, what the
+            // library reports for it depends on the direction asked, and a copy settles on one of them.  Such a model is
+            // compared with the connection ids left out.
+            if (auto mo = std::dynamic_pointer_cast<Model>(orig)) {
+                std::map<std::pair<const void *, const void *>, std::set<std::string>> idsOf;
+                std::vector<ComponentPtr> cs;
+                sim::allComponents(mo, cs);
+                for (auto &c : cs) {
+                    for (size_t i = 0; i < c->variableCount(); ++i) {
+                        auto a = c->variable(i);
+                        for (size_t e = 0; e < a->equivalentVariableCount(); ++e) {
+                            auto b = a->equivalentVariable(e);
+                            const void *pa = a->parent().get(), *pb = b != nullptr ? b->parent().get() : nullptr;
+                            auto key = std::make_pair(std::min(pa, pb), std::max(pa, pb));
+                            for (const std::string &id : {Variable::equivalenceConnectionId(a, b), Variable::equivalenceConnectionId(b, a)}) {
+                                if (!id.empty()) {
+                                    idsOf[key].insert(id);
+                                }
+                            }
+                        }
+                    }
+                }
+                bool conflict = false;
+                for (auto &kv : idsOf) {
+                    conflict = conflict || kv.second.size() > 1;
+                }
+                if (conflict) {
+                    auto mask = [](std::string d) {
+                        size_t p = 0;
+                        while ((p = d.find(" cid=", p)) != std::string::npos) {
+                            size_t e = d.find_first_of(" '\n", p + 5);
+                            d.replace(p + 5, (e == std::string::npos ? d.size() : e) - (p + 5), "?");
+                            p += 5;
+                        }
+                        return d;
+                    };
+                    dOrig = mask(dOrig);
+                    dClone = mask(dClone);
+                    ctx.count("clone_of_model_with_conflicting_connection_ids_compared_without_them");
+                }
+            }
         }
         if (dOrig != dClone) {
             std::string feature;
